@@ -288,8 +288,15 @@ def check_csv_regex_shapes(run):
     path = os.path.join(run.tmp, 'merchant_categories.csv')
     body = ('(AAA|ZZZ),Grouped,CatG,SubG,grp\nAAA,Plain,CatP,SubP,\n')
     body2 = ('bed bath and beyond,BBB Store,CatB,SubB,home\nBED,Bed,CatBed,SubBed,\n')
+    # bare words joined by and / or, or wrapped in parentheses, even PARSE as expressions (over names): they are still the regular expressions they were written as
+    body3 = ('AAA and STORE,Anded,CatAnd,SubAnd,anded\nAAA,Plain,CatP,SubP,\n')
+    body4 = ('(AAA)[amount>2],Paren,CatPar,SubPar,par\nAAA,Plain,CatP,SubP,\n')
+    body5 = ('ZZZ or AAA STORE,Ored,CatOr,SubOr,ored\nAAA,Plain,CatP,SubP,\n')
     for text, desc, win, tags, shape in ((body, 'AAA STORE 123', ('Grouped', 'CatG', 'SubG'), {'grp'}, 'starts_with_parenthesis'),
-                                         (body2, 'BED BATH AND BEYOND 12', ('BBB Store', 'CatB', 'SubB'), {'home'}, 'contains_and')):
+                                         (body2, 'BED BATH AND BEYOND 12', ('BBB Store', 'CatB', 'SubB'), {'home'}, 'contains_and'),
+                                         (body3, 'AAA AND STORE 12', ('Anded', 'CatAnd', 'SubAnd'), {'anded'}, 'bare_words_and'),
+                                         (body4, 'AAA STORE 123', ('Paren', 'CatPar', 'SubPar'), {'par'}, 'bare_word_in_parentheses_with_modifier'),
+                                         (body5, 'ZZZ OR AAA STORE', ('Ored', 'CatOr', 'SubOr'), {'ored'}, 'bare_words_or')):
         open(path, 'w').write('Pattern,Merchant,Category,Subcategory,Tags\n' + text)
         O.case(('csv_shape', shape))
         clear_engine_cache()
@@ -318,6 +325,39 @@ def check_csv_most_specific(run):
         if (c, s) != ('CatLong', 'SubLong'):
             O.fail('C09.legacy_csv_ignores_most_specific', {'csv_most_specific': [rows[i] for i in order]}, ('CatLong', 'SubLong'), (c, s),
                    "get_all_rules(csv, match_mode='most_specific') + normalize_merchant")
+
+
+def check_same_named_rules(run):
+    """two rules may carry the same [Name] (a tag-only rule next to a categorizing one; an override with another priority): each ranks by its OWN key, and a
+    rule without category never changes merchant / category / subcategory - wherever it sits (C02, C09)"""
+    O = run.O
+    tag_only = '[Amazon]\nmatch: contains("AAA") and contains("STORE") and amount < 20\ntags: cheap\n'
+    cat_rules = ['[Prime]\nmatch: contains("AAA") and contains("STORE")\ncategory: CatPrime\nsubcategory: SubPrime\n',
+                 '[Amazon]\nmatch: contains("AAA")\ncategory: CatAmazon\nsubcategory: SubAmazon\n']
+    override = ['[Costco]\nmatch: contains("AAA")\ncategory: CatPlain\nsubcategory: SubPlain\n',
+                '[Costco]\nmatch: contains("AAA")\ncategory: CatOver\nsubcategory: SubOver\npriority: 90\n',
+                '[Two]\nmatch: contains("AAA") and contains("STORE")\ncategory: CatTwo\nsubcategory: SubTwo\n']
+    txns = [{'description': 'AAA STORE 123', 'amount': 10.0, 'date': date(2025, 3, 5), 'field': None, 'source': 'Amex'},
+            {'description': 'AAA STORE 999', 'amount': 139.0, 'date': date(2025, 3, 6), 'field': None, 'source': 'Amex'}]
+    for mode in ('most_specific', 'first_match'):
+        for order in itertools.permutations(range(2)):
+            base = [cat_rules[i] for i in order]
+            want = [(r.category, r.subcategory) for r in [parse_merchants(HEADER + '\n'.join(base), mode).match(dict(t)) for t in txns]]
+            for pos in range(3):
+                rules = base[:pos] + [tag_only] + base[pos:]
+                O.case(('same_name', mode, order, pos))
+                eng = parse_merchants(HEADER + '\n'.join(rules), mode)      # one engine for both transactions, like a run
+                got = [(r.category, r.subcategory) for r in [eng.match(dict(t)) for t in txns]]
+                if got != want:
+                    O.fail('%s.same_named_rules.tag_only_rule_changes_classification' % run.prop, {'same_named': 'tag_only', 'mode': mode, 'rules_text': HEADER + '\n'.join(rules)}, want, got,
+                           'parse_merchants(text, mode).match(txn) with and without the tag-only rule')
+    for order in itertools.permutations(range(3)):
+        rules = [override[i] for i in order]
+        O.case(('same_name', 'override', order))
+        r = parse_merchants(HEADER + '\n'.join(rules), 'most_specific').match(dict(txns[0]))
+        if (r.category, r.subcategory) != ('CatOver', 'SubOver'):
+            O.fail('%s.same_named_rules.override_priority_not_its_own' % run.prop, {'same_named': 'override', 'rules_text': HEADER + '\n'.join(rules)}, ('CatOver', 'SubOver'), (r.category, r.subcategory),
+                   "parse_merchants(text, 'most_specific').match(txn): the rule with priority 90 ranks highest in every order")
 
 
 def check_transforms(run):
@@ -389,6 +429,8 @@ def run(prop):
                     r.check(w['rules'], w['txn'], w['mode'])
                 elif 'csv_rules' in w:
                     check_csv(r, w['csv_rules'], w['txn'])
+                elif 'same_named' in w:
+                    check_same_named_rules(r)
                 elif 'csv_most_specific' in w:
                     check_csv_most_specific(r)
                 elif 'csv_shape' in w:
@@ -423,6 +465,8 @@ def run(prop):
                 check_csv_regex_shapes(r)
             if prop == 'C09':
                 check_csv_most_specific(r)
+            if prop in ('C02', 'C09'):
+                check_same_named_rules(r)
             if prop == 'C01':
                 check_transforms(r)
                 r.finish_unknown()
